@@ -362,7 +362,7 @@ func joined(f *ssa.Function, g *ssa.Go) bool {
 func ruleCtxSelect(r *core.Reporter) {
 	p := r.P
 	gs := waitedGoroutines(p)
-	if !r.Floor("goroutines waited for by a Stop", len(gs), 18) {
+	if !r.Floor("goroutines waited for by a Stop", len(gs), 12) {
 		return
 	}
 	ops, exempt := 0, 0
@@ -698,7 +698,7 @@ func ruleNilClient(r *core.Reporter) {
 			}
 		})
 	}
-	r.Floor("client dereferences", derefs, 6)
+	r.Floor("client dereferences", derefs, 2)
 }
 
 // nilGuarded: the load `ld` of the client field (and its use) execute only under a guard that implies the field is non-nil.
@@ -1374,7 +1374,7 @@ func ruleCalleeWake(r *core.Reporter) {
 			}
 		}
 	}
-	r.Floor("blocking operations in callees of joined goroutines", ops, 8)
+	r.Floor("blocking operations in callees of joined goroutines", ops, 4)
 }
 
 func isGoTarget(parent, a *ssa.Function) bool {
